@@ -63,8 +63,14 @@ enum Item {
     Rb { label: u32, by_id: bool },
     /// writes that must work
     Battery,
-    /// VectorEngine::build_and_cache_index (set-up call, not an observation)
+    /// VectorEngine::build_and_cache_index (set-up call, not an observation); consulted by the legacy
+    /// `QueryRouter::execute("SIMILAR ..")` path
     Hnsw,
+    /// QueryRouter::build_vector_index (set-up call); consulted by `execute_parsed("SIMILAR .. COSINE")`
+    RouterHnsw,
+    /// RelationalEngine::create_btree_index(table, column) (set-up call); consulted by range conditions
+    /// that the slab SIMD filter does not handle (text, float <= / >=) and by UPDATE / DELETE
+    Btree { table: String, col: String },
     Sleep(u64),
 }
 
@@ -82,6 +88,8 @@ impl Item {
             Item::Rb { label, by_id } => format!("ROLLBACK TO {}", if *by_id { format!("'<id of cp{}>'", label) } else { format!("'cp{}'", label) }),
             Item::Battery => "-- battery: INSERT/UPDATE/DELETE/CREATE TABLE/CREATE INDEX/NODE CREATE/EDGE CREATE/EMBED STORE must work".into(),
             Item::Hnsw => "-- router.vector().build_and_cache_index(HNSWConfig::default())".into(),
+            Item::RouterHnsw => "-- router.build_vector_index()".into(),
+            Item::Btree { table, col } => format!("-- router.relational().create_btree_index(\"{}\", \"{}\")", table, col),
             Item::Sleep(ms) => format!("-- sleep {} ms", ms),
         }
     }
@@ -96,6 +104,8 @@ struct Cfg {
     /// creations are >= 1.1 s apart, so the listed set must be exactly the newest max_cp
     strict_retention: bool,
     hnsw: bool,
+    #[serde(default)]
+    btree: bool,
 }
 
 // ------------------------------------------------------------------------------------------------
@@ -235,6 +245,8 @@ struct Q {
     class: &'static str,
     text: String,
     limit: Option<usize>,
+    /// through the legacy `QueryRouter::execute` instead of `execute_parsed`
+    legacy: bool,
 }
 
 fn fmt_f(x: f32) -> String {
@@ -253,19 +265,25 @@ fn rand_vec(rng: &mut Rng, dim: usize) -> Vec<f32> {
 
 fn rel_queries() -> Vec<Q> {
     let mut qs = Vec::new();
-    qs.push(Q { class: "show-tables", text: "SHOW TABLES".into(), limit: None });
+    qs.push(Q { class: "show-tables", text: "SHOW TABLES".into(), limit: None, legacy: false });
     for t in TABLES {
-        qs.push(Q { class: "select-scan", text: format!("SELECT * FROM {}", t), limit: None });
-        qs.push(Q { class: "describe-table", text: format!("DESCRIBE TABLE {}", t), limit: None });
+        qs.push(Q { class: "select-scan", text: format!("SELECT * FROM {}", t), limit: None, legacy: false });
+        qs.push(Q { class: "describe-table", text: format!("DESCRIBE TABLE {}", t), limit: None, legacy: false });
+        // int conditions are answered by the slab's SIMD filter; text conditions and float <= / >= go
+        // through the row path, which consults hash / b-tree indexes when they exist
         for v in 0..=5 {
-            qs.push(Q { class: "select-eq-on-indexable-column", text: format!("SELECT * FROM {} WHERE a = {}", t, v), limit: None });
+            qs.push(Q { class: "select-eq-int", text: format!("SELECT * FROM {} WHERE a = {}", t, v), limit: None, legacy: false });
         }
         for s in ["x", "y", "q"] {
-            qs.push(Q { class: "select-eq-on-unindexed-column", text: format!("SELECT * FROM {} WHERE b = '{}'", t, s), limit: None });
+            qs.push(Q { class: "select-eq-text", text: format!("SELECT * FROM {} WHERE b = '{}'", t, s), limit: None, legacy: false });
         }
-        qs.push(Q { class: "select-range", text: format!("SELECT * FROM {} WHERE a > 2", t), limit: None });
-        qs.push(Q { class: "select-range", text: format!("SELECT a FROM {} WHERE a <= 3", t), limit: None });
-        qs.push(Q { class: "select-count", text: format!("SELECT COUNT(*) FROM {}", t), limit: None });
+        qs.push(Q { class: "select-range-int", text: format!("SELECT * FROM {} WHERE a > 2", t), limit: None, legacy: false });
+        qs.push(Q { class: "select-range-int", text: format!("SELECT a FROM {} WHERE a <= 3", t), limit: None, legacy: false });
+        qs.push(Q { class: "select-range-text", text: format!("SELECT * FROM {} WHERE b >= 'q'", t), limit: None, legacy: false });
+        qs.push(Q { class: "select-range-text", text: format!("SELECT * FROM {} WHERE b < 'y'", t), limit: None, legacy: false });
+        qs.push(Q { class: "select-range-float", text: format!("SELECT * FROM {} WHERE c >= 1.5", t), limit: None, legacy: false });
+        qs.push(Q { class: "select-range-float", text: format!("SELECT * FROM {} WHERE c <= 1.5", t), limit: None, legacy: false });
+        qs.push(Q { class: "select-count", text: format!("SELECT COUNT(*) FROM {}", t), limit: None, legacy: false });
     }
     qs
 }
@@ -278,39 +296,46 @@ fn all_queries(cfg: &Cfg) -> Vec<Q> {
         return qs;
     }
     for i in 1..=NODE_MAX {
-        qs.push(Q { class: "node-get", text: format!("NODE GET {}", i), limit: None });
-        qs.push(Q { class: "neighbors", text: format!("NEIGHBORS {} OUTGOING", i), limit: None });
-        qs.push(Q { class: "neighbors", text: format!("NEIGHBORS {} INCOMING", i), limit: None });
-        qs.push(Q { class: "neighbors", text: format!("NEIGHBORS {} BOTH", i), limit: None });
+        qs.push(Q { class: "node-get", text: format!("NODE GET {}", i), limit: None, legacy: false });
+        qs.push(Q { class: "neighbors", text: format!("NEIGHBORS {} OUTGOING", i), limit: None, legacy: false });
+        qs.push(Q { class: "neighbors", text: format!("NEIGHBORS {} INCOMING", i), limit: None, legacy: false });
+        qs.push(Q { class: "neighbors", text: format!("NEIGHBORS {} BOTH", i), limit: None, legacy: false });
     }
     for i in 1..=EDGE_MAX {
-        qs.push(Q { class: "edge-get", text: format!("EDGE GET {}", i), limit: None });
+        qs.push(Q { class: "edge-get", text: format!("EDGE GET {}", i), limit: None, legacy: false });
     }
-    qs.push(Q { class: "node-list", text: "NODE LIST".into(), limit: None });
-    qs.push(Q { class: "node-list", text: "NODE LIST person".into(), limit: None });
-    qs.push(Q { class: "edge-list", text: "EDGE LIST".into(), limit: None });
-    qs.push(Q { class: "edge-list", text: "EDGE LIST knows".into(), limit: None });
-    qs.push(Q { class: "find-node", text: "FIND NODE city".into(), limit: None });
-    qs.push(Q { class: "find-edge", text: "FIND EDGE likes".into(), limit: None });
-    qs.push(Q { class: "graph-constraint-list", text: "CONSTRAINT LIST".into(), limit: None });
-    qs.push(Q { class: "graph-index-show", text: "GRAPH INDEX SHOW ON NODE".into(), limit: None });
-    qs.push(Q { class: "graph-index-show", text: "GRAPH INDEX SHOW ON EDGE".into(), limit: None });
+    qs.push(Q { class: "node-list", text: "NODE LIST".into(), limit: None, legacy: false });
+    qs.push(Q { class: "node-list", text: "NODE LIST person".into(), limit: None, legacy: false });
+    qs.push(Q { class: "edge-list", text: "EDGE LIST".into(), limit: None, legacy: false });
+    qs.push(Q { class: "edge-list", text: "EDGE LIST knows".into(), limit: None, legacy: false });
+    qs.push(Q { class: "find-node", text: "FIND NODE city".into(), limit: None, legacy: false });
+    qs.push(Q { class: "find-edge", text: "FIND EDGE likes".into(), limit: None, legacy: false });
+    qs.push(Q { class: "graph-constraint-list", text: "CONSTRAINT LIST".into(), limit: None, legacy: false });
+    qs.push(Q { class: "graph-index-show", text: "GRAPH INDEX SHOW ON NODE".into(), limit: None, legacy: false });
+    qs.push(Q { class: "graph-index-show", text: "GRAPH INDEX SHOW ON EDGE".into(), limit: None, legacy: false });
     for k in 0..NKEYS {
-        qs.push(Q { class: "embed-get", text: format!("EMBED GET 'k{}'", k), limit: None });
+        qs.push(Q { class: "embed-get", text: format!("EMBED GET 'k{}'", k), limit: None, legacy: false });
     }
     let mut rng = Rng::new(0xC08 + cfg.dim as u64);
     for j in 0..3 {
         let v = rand_vec(&mut rng, cfg.dim);
         let metric = ["COSINE", "EUCLIDEAN", "DOT_PRODUCT"][j];
         for lim in [3usize, 20] {
-            qs.push(Q { class: "similar", text: format!("SIMILAR {} LIMIT {} {}", vec_text(&v), lim, metric), limit: Some(lim) });
+            qs.push(Q { class: "similar", text: format!("SIMILAR {} LIMIT {} {}", vec_text(&v), lim, metric), limit: Some(lim), legacy: false });
         }
     }
     for k in [0usize, 3] {
-        qs.push(Q { class: "similar", text: format!("SIMILAR 'k{}' LIMIT 4", k), limit: Some(4) });
+        qs.push(Q { class: "similar", text: format!("SIMILAR 'k{}' LIMIT 4", k), limit: Some(4), legacy: false });
+        qs.push(Q { class: "legacy-execute-similar", text: format!("SIMILAR k{} TOP 4", k), limit: Some(4), legacy: true });
     }
-    qs.push(Q { class: "count-embeddings", text: "COUNT EMBEDDINGS".into(), limit: None });
-    qs.push(Q { class: "show-embeddings", text: "SHOW EMBEDDINGS".into(), limit: None });
+    {
+        let v = rand_vec(&mut rng, cfg.dim);
+        for lim in [3usize, 20] {
+            qs.push(Q { class: "legacy-execute-similar", text: format!("SIMILAR {} TOP {}", vec_text(&v), lim), limit: Some(lim), legacy: true });
+        }
+    }
+    qs.push(Q { class: "count-embeddings", text: "COUNT EMBEDDINGS".into(), limit: None, legacy: false });
+    qs.push(Q { class: "show-embeddings", text: "SHOW EMBEDDINGS".into(), limit: None, legacy: false });
     qs
 }
 
@@ -330,7 +355,9 @@ struct CpRec {
     id: String,
     name: String,
     obs: Vec<Ans>,
+    /// no approximate index could have answered the SIMILAR statements when they were recorded
     sim_exact: bool,
+    legacy_sim_exact: bool,
     /// a write succeeded since this checkpoint was taken (for the non-triviality rule)
     nonempty: bool,
 }
@@ -381,6 +408,8 @@ struct Runner {
     node_hi: u64,
     edge_hi: u64,
     hnsw_live: bool,
+    router_hnsw_built: bool,
+    btree_tables: BTreeSet<String>,
     bat_n: u32,
     viols: Vec<Viol>,
     counters: BTreeMap<String, u64>,
@@ -388,6 +417,7 @@ struct Runner {
     trace: bool,
     nontrivial_rollbacks: u64,
     last_rb: Option<u32>,
+    constraint_stmt_since_rb: bool,
 }
 
 fn count(c: &mut BTreeMap<String, u64>, k: &str, n: u64) {
@@ -421,6 +451,8 @@ impl Runner {
             node_hi: 0,
             edge_hi: 0,
             hnsw_live: false,
+            router_hnsw_built: false,
+            btree_tables: BTreeSet::new(),
             bat_n: 0,
             viols: Vec::new(),
             counters: BTreeMap::new(),
@@ -428,6 +460,7 @@ impl Runner {
             trace,
             nontrivial_rollbacks: 0,
             last_rb: None,
+            constraint_stmt_since_rb: false,
         })
     }
 
@@ -455,8 +488,8 @@ impl Runner {
         let out: Vec<Ans> = qs
             .iter()
             .map(|q| {
-                let r = self.router.execute_parsed(&q.text).map_err(|e| e.to_string());
-                canon(&r)
+                let r = if q.legacy { self.router.execute(&q.text) } else { self.router.execute_parsed(&q.text) };
+                canon(&r.map_err(|e| e.to_string()))
             })
             .collect();
         count(&mut self.counters, "observation_queries_executed", qs.len() as u64);
@@ -489,6 +522,18 @@ impl Runner {
         }
     }
 
+    /// make `expected` equal to what is listed, keeping the creation order the harness observed
+    /// (the order of the list itself is unreliable inside one second)
+    fn resync(&mut self, listed: &[Listed]) {
+        let mut next: Vec<Listed> = self.expected.iter().filter(|e| listed.iter().any(|l| l.id == e.id)).cloned().collect();
+        for l in listed.iter().rev() {
+            if !next.iter().any(|e| e.id == l.id) {
+                next.push(l.clone());
+            }
+        }
+        self.expected = next;
+    }
+
     fn mark_write(&mut self) {
         for rec in self.recs.values_mut() {
             rec.nonempty = true;
@@ -498,6 +543,9 @@ impl Runner {
     fn do_stmt(&mut self, s: &str) -> Result<QueryResult, String> {
         let r = self.exec(s);
         let up = s.trim_start().to_ascii_uppercase();
+        if up.starts_with("CONSTRAINT") {
+            self.constraint_stmt_since_rb = true;
+        }
         let is_read = up.starts_with("SELECT") || up.starts_with("NEIGHBORS") || up.starts_with("SIMILAR") || up.starts_with("SHOW") || up.contains(" GET ") || up.contains(" LIST");
         match &r {
             Ok(q) => {
@@ -607,11 +655,11 @@ impl Runner {
                 self.viol("checkpoints:unknown-checkpoint-listed", d);
             }
             // continue from what is really there
-            self.expected = listed.iter().rev().cloned().collect();
+            self.resync(&listed);
         } else if self.cfg.strict_retention {
             count(&mut self.counters, "retention_list_checks_passed", 1);
         }
-        self.recs.insert(label, CpRec { id, name, obs, sim_exact: !self.hnsw_live, nonempty: false });
+        self.recs.insert(label, CpRec { id, name, obs, sim_exact: !self.router_hnsw_built, legacy_sim_exact: !self.router_hnsw_built && !self.hnsw_live, nonempty: false });
     }
 
     fn do_rollback(&mut self, label: u32, by_id: bool) {
@@ -659,20 +707,34 @@ impl Runner {
             count(&mut self.counters, "rollbacks_repeated_same_target", 1);
         }
         self.last_rb = Some(label);
+        self.constraint_stmt_since_rb = false;
 
         // ---- data: every observation query answers as recorded
         let now = self.observe();
-        let (nonempty, sim_exact) = self.recs.get(&label).map(|r| (r.nonempty, r.sim_exact)).unwrap_or((false, true));
+        let (nonempty, sim_exact, legacy_sim_exact) = self.recs.get(&label).map(|r| (r.nonempty, r.sim_exact, r.legacy_sim_exact)).unwrap_or((false, true, true));
         let mut seen: BTreeMap<String, (u64, String)> = BTreeMap::new();
         let mut compared = 0u64;
         if let Some(rec) = self.recs.get(&label) {
             for (i, q) in self.queries.iter().enumerate() {
-                if q.class == "similar" && !sim_exact {
+                if (q.class == "similar" && !sim_exact) || (q.class == "legacy-execute-similar" && !legacy_sim_exact) {
                     continue; // recorded while an approximate index was live: not judged
                 }
                 compared += 1;
                 if let Some(nature) = differ(&rec.obs[i], &now[i], q.limit) {
-                    let class = if q.class == "similar" && self.hnsw_live { "similar-after-hnsw-cache-built-since-checkpoint" } else { q.class };
+                    let table = q.text.split_whitespace().skip_while(|w| *w != "FROM").nth(1).unwrap_or("");
+                    let class = if q.class == "similar" && self.router_hnsw_built {
+                        "similar-with-router-hnsw-index-built-since-checkpoint"
+                    } else if q.class == "legacy-execute-similar" && self.router_hnsw_built {
+                        "legacy-execute-similar-with-router-hnsw-index-built-since-checkpoint"
+                    } else if q.class == "legacy-execute-similar" && self.hnsw_live {
+                        "legacy-execute-similar-with-vector-engine-hnsw-cache-built-since-checkpoint"
+                    } else if q.class == "select-range-text" && self.btree_tables.contains(table) {
+                        "select-range-text-on-table-with-btree-index-created-through-engine-api"
+                    } else if q.class == "select-range-float" && self.btree_tables.contains(table) {
+                        "select-range-float-on-table-with-btree-index-created-through-engine-api"
+                    } else {
+                        q.class
+                    };
                     let sig = format!("rollback{}:{}:{}", if self.cfg.qcache { "+query-cache" } else { "" }, class, nature);
                     let e = seen.entry(sig).or_insert((0, String::new()));
                     e.0 += 1;
@@ -707,16 +769,18 @@ impl Runner {
                         names(&post, &self.label_of),
                         self.cfg.max_cp
                     );
-                    // pre is newest first
-                    let tpos = pre.iter().position(|l| l.id == id).unwrap_or(0);
+                    // `expected` holds the checkpoints in the order the harness saw them being created
+                    // (list order is unreliable inside one second)
+                    let order: Vec<String> = self.expected.iter().map(|l| l.id.clone()).collect();
+                    let tpos = order.iter().position(|x| *x == id).unwrap_or(0);
                     let mut sigs: Vec<&str> = Vec::new();
                     if !post_ids.contains(&id) {
                         sigs.push("rollback:checkpoint-list:target-checkpoint-gone");
                     }
-                    if pre.iter().take(tpos).any(|l| !post_ids.contains(&l.id)) {
+                    if order.iter().skip(tpos + 1).any(|x| pre_ids.contains(x) && !post_ids.contains(x)) {
                         sigs.push("rollback:checkpoint-list:newer-checkpoints-gone");
                     }
-                    if pre.iter().skip(tpos + 1).any(|l| !post_ids.contains(&l.id)) {
+                    if order.iter().take(tpos).any(|x| pre_ids.contains(x) && !post_ids.contains(x)) {
                         sigs.push("rollback:checkpoint-list:older-checkpoints-gone");
                     }
                     if post.iter().any(|l| !pre_ids.contains(&l.id)) {
@@ -728,7 +792,7 @@ impl Runner {
                 } else {
                     count(&mut self.counters, "list_unchanged_by_rollback", 1);
                 }
-                self.expected = post.iter().rev().cloned().collect();
+                self.resync(&post);
             }
         }
     }
@@ -817,12 +881,43 @@ impl Runner {
                 other => bad!("update", "failed", "`{}` gave {}", upd, short(&canon(&other))),
             }
             checked += 1;
+            // conditions that go through the hash / b-tree index path when an index exists
+            fn hit_a(r: &String) -> bool {
+                r.split("a=Int(").nth(1).and_then(|x| x.split(')').next()).and_then(|x| x.parse::<i64>().ok()).map_or(false, |a| a >= 4)
+            }
+            fn hit_b(r: &String) -> bool {
+                r.contains("b=String(\"x\")")
+            }
+            let conds: [(&str, fn(&String) -> bool); 2] = [("a >= 4", hit_a), ("b = 'x'", hit_b)];
+            for (cond, hit) in conds {
+                let cur = self.rows(&scan).unwrap_or_default();
+                let want: Vec<&String> = cur.iter().filter(|r| hit(r)).collect();
+                let mark = format!("bat{}", n);
+                let upd = format!("UPDATE {} SET b = '{}' WHERE {}", t, mark, cond);
+                match self.exec(&upd) {
+                    Ok(QueryResult::Count(c)) => {
+                        let after = self.rows(&scan).unwrap_or_default();
+                        let id_of = |r: &String| r.split('|').next().unwrap_or("").to_string();
+                        let want_ids: BTreeSet<String> = want.iter().map(|r| id_of(r)).collect();
+                        let marked: BTreeSet<String> = after.iter().filter(|r| r.contains(&format!("b=String(\"{}\")", mark))).map(id_of).collect();
+                        let pre_marked: BTreeSet<String> = cur.iter().filter(|r| r.contains(&format!("b=String(\"{}\")", mark))).map(id_of).collect();
+                        let newly: BTreeSet<String> = marked.difference(&pre_marked).cloned().collect();
+                        let want_new: BTreeSet<String> = want_ids.difference(&pre_marked).cloned().collect();
+                        if c != want.len() || newly != want_new || after.len() != cur.len() {
+                            bad!("update", "wrong-rows-updated", "`{}` reported {} rows; the scan before shows {} matching rows (ids {:?}); rows newly carrying the mark afterwards: {:?}; table before {:?}", upd, c, want.len(), want_ids, newly, cur);
+                        }
+                    }
+                    other => bad!("update", "failed", "`{}` gave {}", upd, short(&canon(&other))),
+                }
+                checked += 1;
+            }
             if !self.cfg.auto_cp {
                 let del = format!("DELETE FROM {} WHERE a = {}", t, va);
                 match self.exec(&del) {
                     Ok(QueryResult::Count(1)) => {
                         let got = self.rows(&scan).unwrap_or_default();
-                        if got != before {
+                        let ids = |v: &Vec<String>| v.iter().map(|r| r.split('|').next().unwrap_or("").to_string()).collect::<Vec<_>>();
+                        if ids(&got) != ids(&before) {
                             bad!("delete", "table-not-as-before", "after `{}` + `{}` the table has {:?}, before {:?}", ins, del, got, before);
                         }
                     }
@@ -899,6 +994,24 @@ impl Runner {
                 Ok(v) if v == vec![want.clone()] => {}
                 other => bad!("node-create", "not-visible-by-get", "`{}` returned id {}; NODE GET {} gives {:?}", mk, id, id, other),
             }
+            // equal property values are fine when no constraint existed at the checkpoint rolled back to
+            if let (Some(l), false) = (self.last_rb, self.constraint_stmt_since_rb) {
+                let ci = self.queries.iter().position(|q| q.text == "CONSTRAINT LIST");
+                let none_at_cp = ci.and_then(|i| self.recs.get(&l).map(|r| r.obs[i] == Ans::Items(vec![]))).unwrap_or(false);
+                if none_at_cp {
+                    for _ in 0..2 {
+                        let mk = format!("NODE CREATE person {{name: 'batdup{}'}}", n);
+                        match self.exec(&mk) {
+                            Ok(QueryResult::Ids(ids)) if ids.len() == 1 => self.node_hi = self.node_hi.max(ids[0]),
+                            other => {
+                                bad!("node-create", "rejected-though-no-constraint-existed-at-checkpoint", "CONSTRAINT LIST was empty right after CHECKPOINT cp{} and no CONSTRAINT statement ran since the rollback, yet `{}` gave {}", l, mk, short(&canon(&other)));
+                                break;
+                            }
+                        }
+                    }
+                    checked += 1;
+                }
+            }
             // an edge from an older node
             let other_id: Option<u64> = nodes_before.first().and_then(|s| s.split('|').next()).and_then(|s| s.parse().ok());
             if let Some(x) = other_id {
@@ -970,7 +1083,10 @@ impl Runner {
                 other => bad!("embed-store", "count-not-incremented", "COUNT EMBEDDINGS was {}, after storing the new key '{}' it gives {}", n0, key, short(&canon(&other))),
             }
             let sq = format!("SIMILAR '{}' LIMIT {}", key, n0 + 1);
-            match self.exec(&sq) {
+            // (an index built with QueryRouter::build_vector_index is a manual snapshot that no write
+            // refreshes, rollback or not: not judged here)
+            match if self.router_hnsw_built { Ok(QueryResult::Empty) } else { self.exec(&sq) } {
+                Ok(QueryResult::Empty) => {}
                 Ok(QueryResult::Similar(rs)) if rs.iter().any(|r| r.key == key) => {}
                 other => bad!("embed-store", "not-found-by-similar", "`{}` (all {} embeddings fit the limit) gave {}", sq, n0 + 1, short(&canon(&other))),
             }
@@ -1007,6 +1123,22 @@ impl Runner {
                     if self.router.vector().build_and_cache_index(vector_engine::HNSWConfig::default()).is_ok() {
                         self.hnsw_live = true;
                         count(&mut self.counters, "hnsw_caches_built", 1);
+                    }
+                }
+                Item::RouterHnsw => {
+                    if self.router.build_vector_index().is_ok() {
+                        self.router_hnsw_built = true;
+                        count(&mut self.counters, "router_hnsw_indexes_built", 1);
+                    }
+                }
+                Item::Btree { table, col } => {
+                    let r = self.router.relational().create_btree_index(table, col);
+                    if self.trace {
+                        eprintln!("        => {:?}", r);
+                    }
+                    if r.is_ok() {
+                        self.btree_tables.insert(table.clone());
+                        count(&mut self.counters, "btree_indexes_created", 1);
                     }
                 }
                 Item::Sleep(ms) => std::thread::sleep(Duration::from_millis(*ms)),
@@ -1101,9 +1233,10 @@ impl Gen {
                 }
                 2 => {
                     let t = self.some_table(true);
-                    return format!("CREATE INDEX ix_{} ON {} (a)", t, t);
+                    let col = ["a", "b", "b", "c"][self.rng.below(4)];
+                    return format!("CREATE INDEX ix_{}_{} ON {} ({})", t, col, t, col);
                 }
-                3 => return format!("DROP INDEX ON {}(a)", self.some_table(true)),
+                3 => return format!("DROP INDEX ON {}({})", self.some_table(true), ["a", "b"][self.rng.below(2)]),
                 4 => {
                     let t = self.some_table(true);
                     let has_c = self.world.tables.get(&t).map_or(false, |x| x.0);
@@ -1124,10 +1257,13 @@ impl Gen {
                 5 => {
                     let t = self.some_table(true);
                     let v = self.rng.below(6);
-                    return match self.rng.below(3) {
+                    return match self.rng.below(6) {
                         0 => format!("UPDATE {} SET b = {} WHERE a = {}", t, self.lit_b(), v),
                         1 => format!("UPDATE {} SET a = {} WHERE a = {}", t, self.rng.below(6), v),
-                        _ => format!("UPDATE {} SET a = {} WHERE b = 'x'", t, v),
+                        2 => format!("UPDATE {} SET a = {} WHERE b = 'x'", t, v),
+                        3 => format!("UPDATE {} SET b = {} WHERE a >= {}", t, self.lit_b(), v),
+                        4 => format!("UPDATE {} SET a = {} WHERE b < 'y'", t, v),
+                        _ => format!("UPDATE {} SET b = {} WHERE b = 'y'", t, self.lit_b()),
                     };
                 }
                 6 => {
@@ -1135,9 +1271,11 @@ impl Gen {
                         continue;
                     }
                     let t = self.some_table(true);
-                    return match self.rng.below(4) {
+                    return match self.rng.below(6) {
                         0 => format!("DELETE FROM {}", t),
                         1 => format!("DELETE FROM {} WHERE b = 'y'", t),
+                        2 => format!("DELETE FROM {} WHERE b >= 'x'", t),
+                        3 => format!("DELETE FROM {} WHERE a >= {}", t, 2 + self.rng.below(4)),
                         _ => format!("DELETE FROM {} WHERE a = {}", t, self.rng.below(6)),
                     };
                 }
@@ -1224,17 +1362,23 @@ impl Gen {
         }
     }
 
-    fn stmt(&mut self, view: &View) -> String {
+    fn stmt(&mut self, view: &View) -> Item {
         // every destructive statement makes an automatic checkpoint when they are enabled
         let allow_destructive = !self.cfg.auto_cp || (view.cps_total + 3 < CP_TOTAL_CAP && self.rng.chance(1, 3));
-        if self.cfg.qcache {
-            return self.relational(allow_destructive);
+        if self.cfg.btree && !self.world.tables.is_empty() && self.rng.chance(1, 14) {
+            let table = self.some_table(true);
+            let has_c = self.world.tables.get(&table).map_or(false, |x| x.0);
+            let col = ["a", "b", "b", if has_c { "c" } else { "b" }][self.rng.below(4)].to_string();
+            return Item::Btree { table, col };
         }
-        match self.rng.weighted(&[5, 4, 3]) {
+        if self.cfg.qcache {
+            return Item::S(self.relational(allow_destructive));
+        }
+        Item::S(match self.rng.weighted(&[5, 4, 3]) {
             0 => self.relational(allow_destructive),
             1 => self.graph(allow_destructive, view),
             _ => self.vector(allow_destructive),
-        }
+        })
     }
 }
 
@@ -1243,7 +1387,7 @@ impl Source for Gen {
         loop {
             if self.left_in_phase > 0 {
                 self.left_in_phase -= 1;
-                return Some(Item::S(self.stmt(view)));
+                return Some(self.stmt(view));
             }
             if let Some(l) = self.pending_rb.pop() {
                 if view.listed_labels.contains(&l) {
@@ -1282,7 +1426,7 @@ impl Source for Gen {
                     self.pending_rb = view.listed_labels.clone();
                 }
                 Seg::Battery => return Some(Item::Battery),
-                Seg::Hnsw => return Some(Item::Hnsw),
+                Seg::Hnsw => return Some(if self.rng.chance(1, 3) { Item::RouterHnsw } else { Item::Hnsw }),
                 Seg::Sleep(ms) => return Some(Item::Sleep(ms)),
             }
         }
@@ -1421,11 +1565,12 @@ fn cycle_cfg(rng: &mut Rng) -> Cfg {
         max_cp: 100,
         strict_retention: false,
         hnsw: (2..5).contains(&variant),
+        btree: (5..9).contains(&variant),
     }
 }
 
 fn retention_cfg(rng: &mut Rng) -> Cfg {
-    Cfg { auto_cp: false, qcache: false, dim: 4, max_cp: 1 + rng.below(3), strict_retention: true, hnsw: false }
+    Cfg { auto_cp: false, qcache: false, dim: 4, max_cp: 1 + rng.below(3), strict_retention: true, hnsw: false, btree: false }
 }
 
 // ------------------------------------------------------------------------------------------------
@@ -1507,6 +1652,13 @@ fn cfg_text(cfg: &Cfg) -> String {
     )
 }
 
+/// signatures whose witness has already been minimised in this process (one shrink per signature)
+static SHRUNK: std::sync::Mutex<BTreeSet<String>> = std::sync::Mutex::new(BTreeSet::new());
+/// one witness per signature (signature -> (occurrences, minimised?, detail, replay)). `Report` keeps at
+/// most 40 violations over all signatures, so the workers collect here and `main` reports each
+/// signature exactly once (the minimised witness when there is one).
+static WITNESS: std::sync::Mutex<BTreeMap<String, (u64, bool, String, Value)>> = std::sync::Mutex::new(BTreeMap::new());
+
 fn report_outcome(part: &str, case_seed: u64, cfg: &Cfg, o: Outcome, report: &mut Report, do_shrink: bool) {
     if let Some(e) = o.setup_error {
         report.inconclusive(&format!("router set-up failed: {}", first_line(&e)));
@@ -1528,6 +1680,9 @@ fn report_outcome(part: &str, case_seed: u64, cfg: &Cfg, o: Outcome, report: &mu
     if cfg.hnsw {
         report.count("cases_with_hnsw_cache", 1);
     }
+    if cfg.btree {
+        report.count("cases_with_btree_index", 1);
+    }
     if cfg.dim == 384 {
         report.count("cases_with_384_dim_vectors", 1);
     }
@@ -1541,14 +1696,13 @@ fn report_outcome(part: &str, case_seed: u64, cfg: &Cfg, o: Outcome, report: &mu
     let mut done: BTreeSet<String> = BTreeSet::new();
     for v in &o.viols {
         if !done.insert(v.sig.clone()) {
-            report.count(&format!("violations_same_case[{}]", v.sig), 1);
             continue;
         }
-        let already = report.violations.iter().filter(|x| x.signature == v.sig).count();
         let mut items: Vec<Item> = o.log[..(v.at + 1).min(o.log.len())].to_vec();
         let mut viol = v.clone();
-        if do_shrink && already < 2 && !cfg.strict_retention {
-            let (small, best) = shrink(cfg, items.clone(), &v.sig, 80, Duration::from_secs(25));
+        let first = do_shrink && !cfg.strict_retention && SHRUNK.lock().map(|mut g| g.insert(v.sig.clone())).unwrap_or(false);
+        if first {
+            let (small, best) = shrink(cfg, items.clone(), &v.sig, 60, Duration::from_secs(15));
             if let Some(b) = best {
                 items = small;
                 viol = b;
@@ -1556,11 +1710,18 @@ fn report_outcome(part: &str, case_seed: u64, cfg: &Cfg, o: Outcome, report: &mu
             }
         }
         let shown = if items.len() > 70 { format!("(… {} earlier items, see replay …)\n  {}", items.len() - 70, script_text(&items[items.len() - 70..])) } else { script_text(&items) };
-        report.violation(
-            viol.sig.clone(),
-            format!("{}\n{}\nscript ({} items):\n  {}", viol.detail, cfg_text(cfg), items.len(), shown),
-            json!({"part": part, "case_seed": case_seed, "cfg": cfg, "script": items}),
-        );
+        let detail = format!("{}\n{}\nscript ({} items):\n  {}", viol.detail, cfg_text(cfg), items.len(), shown);
+        let replay = json!({"part": part, "case_seed": case_seed, "cfg": cfg, "script": items});
+        if let Ok(mut g) = WITNESS.lock() {
+            let e = g.entry(viol.sig.clone()).or_insert((0, false, String::new(), Value::Null));
+            e.0 += 1;
+            if e.2.is_empty() || (first && !e.1) {
+                e.1 = first;
+                e.2 = detail;
+                e.3 = replay;
+            }
+        }
+        report.count("violating_observations", 1);
     }
 }
 
@@ -1629,6 +1790,12 @@ fn main() {
             }
         });
         total.merge(rep);
+    }
+    if let Ok(g) = WITNESS.lock() {
+        for (sig, (n, _, detail, replay)) in g.iter() {
+            total.violation(sig.clone(), format!("[{} cases of this run show this signature] {}", n, detail), replay.clone());
+            total.count(&format!("cases_with[{}]", sig), *n);
+        }
     }
 
     let meta = Meta {
